@@ -279,7 +279,22 @@ func c18(c *Ctx) {
 		done := make(chan struct{})
 		var p bool
 		go func() {
-			p, _ = guard(func() { resp, err = hc.Do(req) })
+			p, _ = guard(func() {
+				// every fourth script goes through the convenience wrappers (the same exchange by another door)
+				switch {
+				case si%4 == 3 && sc.method == "GET":
+					resp, err = hc.Get(ss.srvA.URL + "/start")
+					c.Count("via:Get")
+				case si%4 == 3 && sc.method == "HEAD":
+					resp, err = hc.Head(ss.srvA.URL + "/start")
+					c.Count("via:Head")
+				case si%4 == 3 && sc.method == "POST" && rdr != nil:
+					resp, err = hc.Post(ss.srvA.URL+"/start", "application/octet-stream", rdr)
+					c.Count("via:Post")
+				default:
+					resp, err = hc.Do(req)
+				}
+			})
 			close(done)
 		}()
 		timedOut := false
